@@ -1,5 +1,6 @@
 (* C08 — transaction-local semantics.  Only property theorems. *)
 From FJ Require Import Bytes Codec Reader Lsm Tracker Db Prog TxP.
+From FJ Require DbOrderP RefineP TxRefineP.
 
 (* read-your-writes and last-write-wins: after ANY list of in-transaction inserts/removes (any keys,
    any overlap), a read of the overlay returns the last write to that key, else what it held before *)
@@ -41,8 +42,23 @@ Theorem C08_tx_write_is_overlay_step : forall x id k v vt tr,
   forall j, j <> id -> over_of (tx_write x id k v vt tr) j = over_of x j.
 Proof. exact tx_write_step. Qed.
 
+(* the commit at the level of the database model, tied to the ordered-map refinement of C01: a commit of either transactional
+   database (and of the single-operation helpers, which are one-operation transactions) that is ACCEPTED acts on the reference
+   maps as its commit batch applied item by item — by C08_commit_complete / C08_commit_sound that batch is exactly the final
+   write per key — and changes nothing else; a commit that is REFUSED (SSI conflict, poisoned) or a transaction that wrote
+   nothing leaves every read of every keyspace as it was *)
+Theorem C08_commit_refines_reference_map : forall (I : N) (d : db) (x : txst),
+  DbOrderP.DInv d -> d_seqno d < I ->
+  forall id k,
+  RefineP.absd I (fst (tx_commit as_is d x)) id k =
+  (if RefineP.is_ok (snd (tx_commit as_is d x))
+   then fold_left (RefineP.sitem (RefineP.has_ks d)) (tx_items x) (RefineP.absd I d)
+   else RefineP.absd I d) id k.
+Proof. exact TxRefineP.tx_commit_refines. Qed.
+
 Print Assumptions C08_tx_write_is_overlay_step.
 Print Assumptions C08_read_your_writes.
 Print Assumptions C08_commit_complete.
 Print Assumptions C08_commit_sound.
 Print Assumptions C08_rollback_noop.
+Print Assumptions C08_commit_refines_reference_map.
